@@ -63,11 +63,13 @@ func (m *Mutex) Unlock() {
 	vhook.Note(vhook.KUnlock, m)
 }
 
+//go:norace
 func (m *Mutex) CanLock() bool {
 	m.mu.Lock()
 	defer m.mu.Unlock()
 	return m.next == m.serving
 }
+//go:norace
 func (m *Mutex) CanRLock() bool { return m.CanLock() }
 
 type RWMutex struct {
@@ -134,12 +136,14 @@ func (m *RWMutex) RUnlock() {
 	vhook.Note(vhook.KUnlock, m)
 }
 
+//go:norace
 func (m *RWMutex) CanLock() bool {
 	m.mu.Lock()
 	defer m.mu.Unlock()
 	return !m.writer && m.readers == 0
 }
 
+//go:norace
 func (m *RWMutex) CanRLock() bool {
 	m.mu.Lock()
 	defer m.mu.Unlock()
